@@ -56,7 +56,7 @@ def _contents(rng, fid, shape, dch):
 
 def gen_world(rng, i, tier):
     dl = rng.pick(DELIMS)
-    cm = rng.pick(["#", ";"])
+    cm = rng.pick(["#", ";", "#", ";", "#;", ";#"])
     shape = ["nogroup", "sections", "both"][i % 3]
     w = {"kind": "tool", "delim": list(dl), "comment": cm, "shape": shape, "cfg": gen.io_cfg(rng, faults=False)}
     ml = dl[1] in ("=", ":") and rng.chance(0.5)      # continuation lines exist only for non-blank delimiter sets
@@ -79,6 +79,7 @@ def gen_world(rng, i, tier):
                 fid += 1
                 nodes.append({"p": "%s/%s.conf.d/%s.conf" % (layer, base, nm), "t": "f", "entries": contents(rng, fid, rng.pick([shape, "both", "sections"]), dl[2], ml)})
     w["nodes"] = nodes
+    w["comment_seed"] = rng.getrandbits(32) if rng.chance(0.6) else None
     if nodes and rng.chance(0.25):
         w["malformed"] = [rng.randrange(len(nodes)), rng.pick(["[oops", "[a] x", "[]"]), rng.randrange(4)]
     return w
@@ -90,6 +91,15 @@ def tree_of(world):
     out = []
     for k, n in enumerate(world["nodes"]):
         c = render_plain([tuple(e) for e in n.get("entries", [])], d, pad)
+        if world.get("comment_seed") is not None:
+            # comment lines (every character of the comment set is used) in front of lines that are not continuation lines
+            r = Rng(world["comment_seed"] + k)
+            out_lines = []
+            for line in c.split("\n"):
+                if line and line[0] not in " \t" and r.chance(0.35):
+                    out_lines.append("%s note %d" % (r.pick(world["comment"]), len(out_lines)))
+                out_lines.append(line)
+            c = "\n".join(out_lines)
         m = world.get("malformed")
         if m and m[0] % len(world["nodes"]) == k:
             lines = c.split("\n")
@@ -253,6 +263,10 @@ def check(world, plans, results):
     if world.get("multiline"):
         v.probe("multiline_values")
     v.probe("shape_" + world["shape"])
+    if len(world["comment"]) > 1:
+        v.probe("comment_set_with_two_characters")
+    if world.get("comment_seed") is not None:
+        v.probe("comment_lines_present")
     if world.get("malformed"):
         v.probe("malformed_member")
     if world["single"]:
